@@ -89,7 +89,7 @@ func (x *Exec) blankState() *State {
 
 func NewExec(w *World, fn *ssa.Function, fc *FuncContract, name string) *Exec {
 	x := &Exec{P: w.P, CS: w.CS, D: NewDecls(), W: w, fn: fn, fc: fc, name: name,
-		Obligs: map[string]*Oblig{}, Abstracted: map[string]bool{}, Inlined: map[string]bool{}, ByContract: map[string]bool{},
+		Obligs: map[string]*Oblig{}, Abstracted: map[string]bool{}, Inlined: map[string]bool{}, ByContract: map[string]bool{}, Dispatched: map[string]bool{},
 		UserCalls: map[string]bool{}, maxPaths: 4000, covers: map[string]bool{}, Spawned: map[string]int{},
 		otherLoops: map[*ssa.Function]map[*ssa.BasicBlock]*loopInfo{}, specDeclared: map[string]bool{}, entryParams: map[*ssa.Parameter]SymVal{},
 		heapSorts: map[string]string{}, implLocal: map[string]types.Type{}, ghostTypes: map[string]types.Type{}}
